@@ -395,27 +395,23 @@ def o3_failure_recording(chk: Check) -> None:
             chk.violation("C05.O3", fn, construct, "collected failures are never raised: Hypothesis sees a passing test", fn.loc())
             continue
         r = raises[0]
-        p = parent(r)
-        guard = p.test if isinstance(p, ast.If) and r in p.body else None
         rc = [c for c in body_calls(fn) if last_attr(c) == "run_checks"]
         rc_name = None
         if rc:
             st = stmt_of(rc[0])
             if isinstance(st, ast.Assign) and isinstance(st.targets[0], ast.Name):
                 rc_name = st.targets[0].id
-        if guard is None:
-            chk.undecided("C05.O3", fn, construct, "raise is not directly guarded by an `if`", fn.loc(r))
+        # what is known at the raise (nested `if`, guard clause with early return - the spelling does not matter)
+        gfn = cfg_of(fn)
+        facts = known_conditions(gfn, gfn.stmt_nodes_containing(r))
+        others = {k: v for k, v in facts.items() if k != rc_name}
+        shown = " and ".join((k if v else f"not {k}") for k, v in facts.items()) or "<unconditional>"
+        if rc_name is not None and facts.get(rc_name) is True and all(k == "continue_on_failure" and v is False for k, v in others.items()):
+            chk.ok("C05.O3", fn, construct, shown, fn.loc(r))
+        elif rc_name is not None and facts.get(rc_name) is False:
+            chk.violation("C05.O3", fn, construct, "FailureGroup is raised only when NO failure was collected", fn.loc(r))
         else:
-            cs = conjuncts(guard)
-            truthy = [c for c in cs if isinstance(c, ast.Name) and c.id == rc_name]
-            others = [c for c in cs if c not in truthy]
-            allowed_other = all(unparse(c) == "not continue_on_failure" for c in others)
-            if truthy and allowed_other:
-                chk.ok("C05.O3", fn, construct, unparse(guard), fn.loc(r))
-            elif any(isinstance(strip_not(c)[0], ast.Name) and strip_not(c)[0].id == rc_name and strip_not(c)[1] for c in cs):  # type: ignore[union-attr]
-                chk.violation("C05.O3", fn, construct, "FailureGroup is raised only when NO failure was collected", fn.loc(r))
-            else:
-                chk.undecided("C05.O3", fn, construct, f"guard `{unparse(guard)}` not recognised", fn.loc(r))
+            chk.undecided("C05.O3", fn, construct, f"condition at the raise `{shown}` not recognised", fn.loc(r))
         arg_ok = bool(r.exc.args) and rc_name is not None and rc_name in names_in(r.exc.args[0])  # type: ignore[union-attr]
         chk.decide(True if arg_ok else None, "C05.O3", fn, "FailureGroup carries the collected failures", "raised group is not built from the run_checks result", fn.loc(r))
 
